@@ -931,19 +931,25 @@ def describe(plan):
 RULE = (
     "Each run draws (from random.Random(derive(VERIF_SEED,'C14',i))) one "
     "subject (PLSSDesc 70% / stand-alone Tract 30%) on a generated PLSS text "
-    "and a history of 1-12 further operations from {config assignment, "
-    "parse(commit in {T,F}, 0-2 keyword overrides), parse_tracts(config?, "
-    "overrides), config_tracts, preprocess(commit), sort_tracts, filter / "
-    "filter_errors / filter_duplicates (drop in {T,F}), 21 read-only calls}; a "
-    "third of runs are forced to contain a back-to-back repeated committed "
-    "call and a third a non-committed call with overrides. The history H and "
-    "its normal form N(H) (erases what C14 says must not matter) run in "
-    "separate forks of a pristine process. A run is NON-TRIVIAL iff the "
-    "subject or one of its tracts carries at least one flag AND (N erased at "
-    "least one committed call, or replaced the constructor's own parse by a "
-    "later committed parse, or a non-committed parse with keyword overrides "
-    "returned normally). distinct = distinct plan digests among non-trivial "
-    "runs."
+    "(witness texts, 16-22-section descriptions and dressed variants "
+    "included) and a history of 1-12 further operations from a per-run "
+    "random subset of {config assignment (text or Config object), "
+    "parse(commit in {T,F}, 0-3 keyword overrides; the caller may then edit "
+    "what a dry run returned), parse_tracts(config?, overrides), "
+    "config_tracts, re-parse of one subordinate tract, in-place edits of "
+    ".tracts, preprocess(commit), sort_tracts, filter / filter_errors / "
+    "filter_duplicates (drop in {T,F}), 28 read-only calls}; a third of runs "
+    "are forced to contain a back-to-back repeated committed call and a third "
+    "a non-committed call with overrides. Oracles: purity at every pure step "
+    "(exact, incl. identities); final state after H vs after the normal form "
+    "N(H) and vs N(H) with the config assignments folded into the "
+    "constructor; return value of dry runs vs a never-parsed object with the "
+    "same settings - each history in its own fork of a pristine process. A "
+    "run is NON-TRIVIAL iff the subject or one of its tracts carries at "
+    "least one flag AND (N erased at least one committed call, or replaced "
+    "the constructor's own parse by a later committed parse, or a "
+    "non-committed parse with keyword overrides returned normally). distinct "
+    "= distinct plan digests among non-trivial runs."
 )
 ASSUMPTIONS = [
     "the library's own behaviour on the shorter history N(H) in a clean "
